@@ -522,6 +522,12 @@ bool applyStep(QDomDocument &doc, QDomElement &root, QDomElement &anchor, const 
         }
         return true;
     }
+    if (op == "AddUnknownChild") {
+        const auto ns = st["ns"].toString();
+        auto child = ns.isEmpty() ? doc.createElement(QStringLiteral("qxv-unknown")) : doc.createElementNS(ns, QStringLiteral("qxv-unknown"));
+        cur.insertBefore(child, cur.firstChild());
+        return true;
+    }
     if (op == "Renamespace" || op == "Nest" || op == "Rename") {
         auto parent = cur.parentNode();
         QDomElement outer;
@@ -1057,7 +1063,8 @@ QXV_DRIVER(codec)
             QStringList ops;
             const auto steps = job["steps"].toArray();
             for (const auto &sv : steps) {
-                ops << sv.toObject()["op"].toString();
+                const auto so = sv.toObject();
+                ops << so["op"].toString() + (so.contains("ns") ? QChar('(') + so["ns"].toString() + QChar(')') : QString());
             }
             runDocument(caseId, steps, job["off"].toInt(), job["deep"].toBool(), job["client"].toBool(), job["anchor"].toInt(),
                         ops.join(QChar('+')) + QStringLiteral("@anchor%1").arg(job["anchor"].toInt()));
